@@ -60,6 +60,7 @@ Step(t, e) ==
                            Entitled(t, m, d.dst, d.dport) >= 0 /\ ~\E x \in t.dem : x.m = m /\ x.id = d.id}
          IN IF missing = {} THEN t0 ELSE Viol(t0, e, "a datagram did not reach the application bound to its address and port")
     [] e.ev = "panic" -> Viol(t0, e, "panic: " \o e.msg \o " at " \o e.loc)
+    [] e.ev = "hang" -> Viol(t0, e, "the scenario never ended: the code under test kept producing events without bound or stopped making progress (" \o e.why \o ")")
     [] OTHER -> t0
 Init == l = 1 /\ s = Init0
 Next == l <= Len(Rec) /\ s' = Step(s, Rec[l]) /\ l' = l + 1
